@@ -54,6 +54,24 @@ CHECKS = {
              "are judged by the TLC trace specification: y = float32 STE of scale*code*step, code range, scale "
              "positive / per channel / power of two / within bounds, maximum not clipped, scale equivariance.",
         design="7 C05"),
+    "C06": dict(
+        spec="QGrad.tla + MC_QGrad + Trace_QGrad",
+        text="TLC checks on every cell of every fixed-point configuration that the derivative of the evaluated "
+             "expression (STE / mixed / quantized_linear forms, every qnoise factor) equals the derivative of the "
+             "documented surrogate, is zero exactly on documented clipped cells and not identically zero; "
+             "tf.GradientTape gradients of the real quantizers (fixed-point, po2, binary/ternary, stochastic variants "
+             "at inference, bernoulli, auto-scaled) on the same cells are judged by the TLC trace specification.",
+        design="7 C06"),
+    "C07": dict(
+        spec="QNoise.tla + MC_QNoise + MC_QKnob + Trace_QNoise + Trace_QKnob",
+        text="TLC model-checks the scheduler over every Keras callback sequence (several fit() runs, interleaved layer "
+             "calls, float/Variable storage): factor applied to all knob quantizers, end points, unit interval, "
+             "non-decreasing (action property); and the knob life cycle (effective factor = last value set). "
+             "TLC -simulate behaviours are replayed hook by hook into the real QNoiseScheduler / quantizer objects, "
+             "real model.fit runs are recorded, and every trace is validated by TLC trace specifications reusing the "
+             "same operators (state after every action; outputs = float32 surrogate + f*(quantized - surrogate), "
+             "constructor-constant vs updated factor, factor 0 = documented activation).",
+        design="7 C07"),
 }
 
 
